@@ -114,6 +114,12 @@ func containmentRule(c *core.Ctx, r *core.Report, perCall bool) {
 			continue
 		}
 		var rec *ssa.Defer
+		if u.Host != nil {
+			// handed to a guarding helper: every such call has its own recovered frame
+			contained++
+			r.OK(key, pos, "handed to %s, which calls it behind its own deferred %s", core.FuncName(an.Callee(u.Call)), core.FuncName(an.Callee(u.Host)))
+			continue
+		}
 		for _, call := range an.AllCalls(fn) {
 			d, ok := call.(*ssa.Defer)
 			if !ok || !an.Dominates(d, u.Call) {
@@ -454,6 +460,38 @@ func init() {
 				// a helper running the literal that holds the user call is such a frame too
 				for _, h := range literalHosts(u.Fn) {
 					frames[h.call.Parent()] = true
+				}
+			}
+			// a guarding helper is such a frame only for what it is handed: every call of it must hand it user code the
+			// runner is about to run (a literal holding a user call, or a registered cleanup) — guarding anything else
+			// (a function the user passed to an API such as T.Time) stops a FailNow before it reaches the iteration's frame
+			hosts := hostHelpers(c)
+			ucalls := userCalls(c)
+			for h, hh := range hosts {
+				for _, site := range an.CallSitesOf(c, h) {
+					if hh.param >= len(site.Common().Args) {
+						continue
+					}
+					arg := an.Strip(site.Common().Args[hh.param])
+					okArg := false
+					if mc, isMC := arg.(*ssa.MakeClosure); isMC {
+						if lf, isF := mc.Fn.(*ssa.Function); isF {
+							for _, u := range ucalls {
+								if u.Fn == lf {
+									okArg = true
+								}
+							}
+						}
+					}
+					for _, u := range ucalls {
+						if u.Host != nil && u.Call == site {
+							okArg = true
+						}
+					}
+					if okArg {
+						frames[h] = true
+					}
+					r.Check(okArg, core.FuncName(site.Parent())+"#guards→"+h.Name(), an.Pos(c, site), "the guarding helper is handed user code the runner runs", sprintf("%s hands %s to %s, which recovers: a FailNow or panic raised in it ends there instead of unwinding to the iteration's frame, and the code after this call carries on", core.FuncName(site.Parent()), an.D().Of(site.Common().Args[hh.param]), core.FuncName(h)))
 				}
 			}
 			n := 0
